@@ -1,6 +1,182 @@
 import PdeVerif.Json
-namespace PdeVerif.Drv.C12
-open Lean PdeVerif
+import PdeVerif.Model.Grid
+import PdeVerif.Model.Volume
+import PdeVerif.Model.GridCoords
+/-
+Driver of the C12 model: every handler evaluates the definitions of `PdeVerif.Grids` (the ones
+the theorems of `Props/C12.lean` are about) at `Rat`.
 
-def handlers : List (String × Handler) := []
+Grid argument: {"cls":"unit|cartesian|polar|spherical|cylindrical","lo":[..],"hi":[..],"n":[..],
+"periodic":[..]}; `pi` travels as an exact rational (the harness sends the double `math.pi`).
+Multi-dimensional arrays travel flattened in C order.
+-/
+namespace PdeVerif.Drv.C12
+open Lean PdeVerif PdeVerif.Grids
+
+def parseCls (s : String) : Except String GridClass :=
+  match s with
+  | "unit" => pure .unit
+  | "cartesian" => pure .cartesian
+  | "polar" => pure .polar
+  | "spherical" => pure .spherical
+  | "cylindrical" => pure .cylindrical
+  | _ => throw s!"unknown grid class {s}"
+
+def clsName : GridClass → String
+  | .unit => "unit" | .cartesian => "cartesian" | .polar => "polar"
+  | .spherical => "spherical" | .cylindrical => "cylindrical"
+
+def getGrid (j : Json) : Except String (Grid Rat) := do
+  let g ← fld j "grid"
+  let cls ← parseCls (← fldS g "cls")
+  let lo ← fldQs g "lo"
+  let hi ← fldQs g "hi"
+  let n ← fldNs g "n"
+  let per ← getL getB (← fld g "periodic")
+  if lo.length ≠ hi.length ∨ lo.length ≠ n.length ∨ lo.length ≠ per.length then
+    throw "grid: lo/hi/n/periodic differ in length"
+  let axes := (lo.zip (hi.zip (n.zip per))).map fun (l, h, k, p) => (⟨l, h, k, p⟩ : Axis Rat)
+  pure ⟨cls, axes⟩
+
+def jGrid (g : Grid Rat) : Json :=
+  Json.mkObj [("cls", Json.str (clsName g.cls)), ("lo", jQs (g.axes.map (·.lo))),
+    ("hi", jQs (g.axes.map (·.hi))), ("n", toJson (g.axes.map (·.n))),
+    ("periodic", toJson (g.axes.map (·.periodic)))]
+
+/-- all multi-indices of a shape in C order -/
+def multiIndices : List Nat → List (List Nat)
+  | [] => [[]]
+  | n :: ns => (List.range n).flatMap fun i => (multiIndices ns).map (i :: ·)
+
+/-- C-order flat index -/
+def flatIndex : List Nat → List Nat → Nat
+  | _ :: ns, i :: is => i * ns.foldl (· * ·) 1 + flatIndex ns is
+  | _, _ => 0
+
+def unflatten (shape : List Nat) (a : Array Rat) : List Nat → Rat :=
+  fun idx => a.getD (flatIndex shape idx) 0
+
+def getPts (j : Json) (k : String) : Except String (List (List Rat)) := do
+  getL (getL getQ) (← fld j k)
+
+def jPts (l : List (List Rat)) : Json := Json.arr (l.map jQs).toArray
+
+/-- {"grid","pi"} -> dx, coords, per-axis volume factors, all cell volumes, volume -/
+def geometry (j : Json) : Except String Json := do
+  let g ← getGrid j
+  let pi ← fldQ j "pi"
+  let vd := g.axisVolsAll pi
+  pure <| Json.mkObj [
+    ("dx", jQs g.discretization),
+    ("coords", jPts g.axesCoords),
+    ("voldata", jPts (vd.map fun a => (List.range a.n).map a.vol)),
+    ("cellvols", jQs ((multiIndices g.shape).map (g.cellVolume pi))),
+    ("volume", jQ (g.volume pi)),
+    ("dim", toJson g.dim)]
+
+/-- {"lo":[..],"hi":[..]} -> corners of the cuboid built by `Cuboid.from_bounds` -/
+def cuboid (j : Json) : Except String Json := do
+  let lo ← fldQs j "lo"
+  let hi ← fldQs j "hi"
+  pure <| jPts ((lo.zip hi).map fun (l, h) => let b := cuboidBounds l h; [b.1, b.2])
+
+/-- {"grid","pi","sel":[bool],"data":[flattened]} -> `grid.integrate(data, axes)` flattened -/
+def integrateH (j : Json) : Except String Json := do
+  let g ← getGrid j
+  let pi ← fldQ j "pi"
+  let sel ← getL getB (← fld j "sel")
+  let data ← fldQs j "data"
+  let f := unflatten g.shape data.toArray
+  let retShape := keep g.shape (sel.map (!·))
+  pure <| jQs ((multiIndices retShape).map (g.integrateSel pi sel f))
+
+/-- {"grid","pi","remove":[bool],"data":[..]} -> projected data on the sliced grid, the sliced
+grid, its integral and the integral of the original field -/
+def projectH (j : Json) : Except String Json := do
+  let g ← getGrid j
+  let pi ← fldQ j "pi"
+  let rem ← getL getB (← fld j "remove")
+  let data ← fldQs j "data"
+  let f := unflatten g.shape data.toArray
+  let sg := g.slice (rem.map (!·))
+  let pd := (multiIndices sg.shape).map (g.project pi rem f)
+  let pf := unflatten sg.shape pd.toArray
+  pure <| Json.mkObj [("data", jQs pd), ("sliced", jGrid sg),
+    ("integral", jQ (sg.integrateAll pi pf)), ("full", jQ (g.integrateAll pi f))]
+
+/-- point operations; {"grid","op",...} -/
+def points (j : Json) : Except String Json := do
+  let g ← getGrid j
+  let op ← fldS j "op"
+  match op with
+  | "cell2grid" => pure <| jPts ((← getPts j "pts").map g.cellToGrid)
+  | "grid2cell" => pure <| jPts ((← getPts j "pts").map g.gridToCell)
+  | "grid2cart" => pure <| jPts ((← getPts j "pts").map g.toCartesian)
+  | "cell2cart" => pure <| jPts ((← getPts j "pts").map fun c => g.toCartesian (g.cellToGrid c))
+  | "cart2grid" =>
+    -- "radii": the values of the external hypot/norm (harness-computed), validated against r2
+    let pts ← getPts j "pts"
+    let radii ← fldQs j "radii"
+    let r2 := pts.map g.radiusSq
+    let gr := (pts.zip radii).map fun (x, r) => g.fromCartesian r x
+    pure <| Json.mkObj [("r2", jQs r2), ("grid", jPts gr), ("cell", jPts (gr.map g.gridToCell)),
+      ("contains", toJson (gr.map g.containsGrid))]
+  | "contains_grid" => pure <| toJson ((← getPts j "pts").map g.containsGrid)
+  | "contains_cell" => pure <| toJson ((← getPts j "pts").map (containsCell g.shape))
+  | "normalize" =>
+    let reflect ← fldB j "reflect"
+    pure <| jPts ((← getPts j "pts").map (g.normalizePoint reflect))
+  | "diff_cart" =>
+    let p1 ← getPts j "p1"
+    let p2 ← getPts j "p2"
+    let d := (p1.zip p2).map fun (a, b) => g.differenceVector a b
+    pure <| Json.mkObj [("diff", jPts d), ("dist2", jQs (d.map normSq))]
+  | "diff_grid" =>
+    let p1 ← getPts j "p1"
+    let p2 ← getPts j "p2"
+    let d := (p1.zip p2).map fun (a, b) => g.differenceVectorGrid a b
+    pure <| Json.mkObj [("diff", jPts d), ("dist2", jQs (d.map normSq))]
+  | "diff_cell" =>
+    let p1 ← getPts j "p1"
+    let p2 ← getPts j "p2"
+    let d := (p1.zip p2).map fun (a, b) => g.differenceVectorGrid (g.cellToGrid a) (g.cellToGrid b)
+    pure <| Json.mkObj [("diff", jPts d), ("dist2", jQs (d.map normSq))]
+  | "random_cart" =>
+    -- {"b": boundary distance, "us": [[u per axis]..]} -> points
+    let b ← fldQ j "b"
+    let us ← getPts j "us"
+    pure <| jPts (us.map fun u => g.axes.zipWith (fun a ui => randomCoord a.lo a.hi b ui) u)
+  | "random_radial" =>
+    -- {"b","avoid","us":[[u_r(, u_z)]..]} -> [r^dim draw (, z)] with dim = 2 for cylinders
+    let b ← fldQ j "b"
+    let avoid ← fldB j "avoid"
+    let us ← getPts j "us"
+    match g.cls, g.axes with
+    | .polar, [a] | .spherical, [a] =>
+      let (rmin, rmax) := randomRadialBounds a.lo a.hi b avoid
+      let pw := fun (x : Rat) => if g.dim = 2 then x * x else x * x * x
+      pure <| jPts (us.map fun u => [uniformDraw (pw rmin) (pw rmax) (u.headD 0)])
+    | .cylindrical, [a, z] =>
+      let (rmin, rmax) := randomRadialBounds a.lo a.hi b avoid
+      pure <| jPts (us.map fun u => [uniformDraw (rmin * rmin) (rmax * rmax) (u.headD 0),
+        uniformDraw (z.lo + b) (z.hi - b) (u.tail.headD 0)])
+    | _, _ => throw "random_radial: not a radial grid"
+  | _ => throw s!"unknown op {op}"
+
+/-- {"system":"polar|spherical|cylindrical","r","cp","sp","ct","st","z"} -> `_pos_to_cart` with the
+angles given as (cos, sin) pairs -/
+def tocart (j : Json) : Except String Json := do
+  let sys ← fldS j "system"
+  let r ← fldQ j "r"
+  let cp ← fldQ j "cp"
+  let sp ← fldQ j "sp"
+  match sys with
+  | "polar" => pure <| jQs (polarToCart r cp sp)
+  | "cylindrical" => pure <| jQs (cylToCart r cp sp (← fldQ j "z"))
+  | "spherical" => pure <| jQs (sphToCart r (← fldQ j "ct") (← fldQ j "st") cp sp)
+  | _ => throw s!"unknown coordinate system {sys}"
+
+def handlers : List (String × Handler) :=
+  [("c12.geometry", geometry), ("c12.tocart", tocart), ("c12.cuboid", cuboid), ("c12.integrate", integrateH),
+   ("c12.project", projectH), ("c12.points", points)]
 end PdeVerif.Drv.C12
